@@ -553,7 +553,10 @@ func (e *Exec) obligation(label string, c *Term) {
 	saved := e.pcond
 	e.sol.send("(push 1)")
 	e.sol.Assert(e.tc.Not(c))
-	e.addFinding("assert", label, "assertion "+label+" can fail")
+	// "A.x|B.y": one condition stated by two properties is reported under each label
+	for _, l := range strings.Split(label, "|") {
+		e.addFinding("assert", l, "assertion "+l+" can fail")
+	}
 	e.sol.send("(pop 1)")
 	e.pcond = saved
 	// continue on the side where the assertion holds, if any
